@@ -47,3 +47,9 @@ package reorgdetector
 //@   ensures[at-most-one-reorg-per-pass] notifyCalls <= 1
 //@   ensures[reorg-means-rewind-to-first-mismatch-then-drop] notifyCalls == 1 ==> (result == nil ==> lastDropFrom == lastNotified)
 //@   loop 0 invariant notifyCalls == 0 && headersCache != nil && rd != nil && rd.client != nil && rd.log != nil && hdrs != nil && lastFinalisedBlock != nil && lastFinalisedBlock.Number != nil
+
+// the tracked blocks reloaded at start-up (C06): assumed semantics (A5), text pinned
+//@ func (rd *ReorgDetector) getTrackedBlocks
+//@   props C06
+//@   trusted
+//@   sqltext "SELECT * FROM tracked_block ORDER BY subscriber_id;"
